@@ -78,7 +78,12 @@ func (c *controllerRevisions) Get(ctx context.Context, name string, options v1.G
 }
 
 func (c *controllerRevisions) List(ctx context.Context, opts v1.ListOptions) (result *v1alpha1.ControllerRevisionList, err error) {
-	return nil, fmt.Errorf("verification overlay: List not modelled")
+	if l, ok := c.backend().(interface {
+		RevList(ns string, labelSelector string) (*v1alpha1.ControllerRevisionList, error)
+	}); ok {
+		return l.RevList(c.ns, opts.LabelSelector)
+	}
+	return nil, fmt.Errorf("verification overlay: List not modelled by this backend")
 }
 
 func (c *controllerRevisions) Watch(ctx context.Context, opts v1.ListOptions) (watch.Interface, error) {
